@@ -30,6 +30,9 @@ def check(ctx, replay=None):
                 if "pair" in call["m"]:
                     by.setdefault((call["m"]["pair"], call["m"]["name"].split("_")[1]), []).append((call, res["records"].get(ci)))
             sample += [{"method": c["m"]["name"], "args": c["args"], "observed": r} for (c, r) in list(by.values())[0][:2]] if by and bi == 0 else []
+    # optional borrowed slices / strings in return position, optional write-outs: {payload, is_ok} records returned by value
+    import c01_extra
+    ncalls += c01_extra.run(ctx, crate="c10x")
     import c10_extra
     ncalls += c10_extra.run(ctx, ("c", "cpp"), ("c++17",) if ctx.quick() else ("c++17", "c++20"), goals=goals)
     meta += [("unit-arms-layout", "record of a result whose arms carry no bytes (c10_extra)")] * (len(goals) - len(meta))
@@ -44,7 +47,7 @@ def check(ctx, replay=None):
         "arms, stale payload bytes in None arguments; observed through the compiled C driver: {payload, is_ok} of every result, NULL-ness of pointer "
         "options, identical declarations for the two spellings, identical behaviour; plus a fixed bridge whose Option / Result arms carry no bytes (unit, "
         "field-less structs) observed through C and C++ drivers (record size 1, is_ok at offset 0, both outcomes). Coq goals: prototypes, result typedefs (union members present / "
-        "absent), struct layouts. non-trivial = call involving an optional or fallible type" % nb,
+        "absent), struct layouts; and the fixed extra-shapes bridge (Option<&str> / Option<&[T]> / Option<()> write-out returns, both outcomes) through a C caller written against the documented records. non-trivial = call involving an optional or fallible type" % nb,
         "Modelled, not verified: see C01 (Abi/Model.v); DiplomatResult/DiplomatOption runtime conversions are covered by C03's model; the C compiler's "
         "union layout is trusted (SysV ABI)",
         sample or [{"note": "no paired calls"}], ["struct-field position of DiplomatOption is exercised through the generated structs' layouts"],
